@@ -1,7 +1,7 @@
 (* C20 — A stored remote handle has a stable, type-independent encoding. Statements only.
    The field list and serde attributes of `Remote` are regenerated from sylvia/src/types.rs. *)
 From Coq Require Import String List Bool ZArith.
-Require Import SV.Base.Json SV.Model.GenLib SV.Model.Lib SV.Facts.LibFacts.
+Require Import SV.Base.Json SV.Model.GenLib SV.Model.Lib SV.Facts.RemoteHandleFacts.
 Import ListNotations.
 Open Scope string_scope.
 
